@@ -256,7 +256,7 @@ func (ps *sparser) expr() Expr {
 			ps.fail("let needs a name")
 		}
 		ps.expectOp("=")
-		v := ps.expr()
+		v := ps.add() // no comparison operators in the bound value: `in` ends it
 		if !ps.isId("in") {
 			ps.fail("let needs in")
 		}
@@ -508,6 +508,9 @@ func (ps *sparser) primary() Expr {
 		case "forall", "exists":
 			ps.p--
 			return ps.quant()
+		case "let":
+			ps.p--
+			return ps.expr()
 		case "old":
 			ps.expectOp("(")
 			x := ps.expr()
@@ -812,26 +815,28 @@ func (db *SpecDB) parseContractText(file, pkgPath, text string) error {
 			if len(f) < 3 {
 				return fmt.Errorf("%s:%d: loop <id> invariant|decreases <expr>", file, l.ln)
 			}
-			ls := cur.Loops[f[0]]
-			if ls == nil {
-				ls = &LoopSpec{}
-				cur.Loops[f[0]] = ls
-			}
-			switch f[1] {
-			case "invariant":
-				cl, err := mkClause(f[2], l.ln)
-				if err != nil {
-					return err
+			for _, lid := range strings.Split(f[0], ",") {
+				ls := cur.Loops[lid]
+				if ls == nil {
+					ls = &LoopSpec{}
+					cur.Loops[lid] = ls
 				}
-				ls.Inv = append(ls.Inv, cl)
-			case "decreases":
-				e, err := parseSpecExpr(f[2])
-				if err != nil {
-					return fmt.Errorf("%s:%d: %v", file, l.ln, err)
+				switch f[1] {
+				case "invariant":
+					cl, err := mkClause(f[2], l.ln)
+					if err != nil {
+						return err
+					}
+					ls.Inv = append(ls.Inv, cl)
+				case "decreases":
+					e, err := parseSpecExpr(f[2])
+					if err != nil {
+						return fmt.Errorf("%s:%d: %v", file, l.ln, err)
+					}
+					ls.Decreases, ls.DecSrc = e, f[2]
+				default:
+					return fmt.Errorf("%s:%d: loop clause %q", file, l.ln, f[1])
 				}
-				ls.Decreases, ls.DecSrc = e, f[2]
-			default:
-				return fmt.Errorf("%s:%d: loop clause %q", file, l.ln, f[1])
 			}
 		case "pure", "uninterp":
 			// pure name(p T, q U) R = expr      |   uninterp name(p T) R
